@@ -948,6 +948,9 @@ def gen_table(rng, unions: bool = True, inherit: bool = True, generics: float = 
             else:                                    # own Config; it keeps at least the parent's keyword flags
                 o = replace(o, fon=o.fon or pc.o.fon, fba=o.fba or pc.o.fba, fdl=o.fdl or pc.o.fdl, fcx=o.fcx or pc.o.fcx,
                             lazy=o.lazy and mixin)
+                if not config_lines(o, "D" if o.cfgd is not None else None):
+                    # an option vector that sets nothing writes no Config class at all: the parent's Config is inherited
+                    o, own_cfg, cfg_owner = pc.o, False, pc.cfg_owner
         taken = {f.name for f in inherited}
         names = rng.sample([x for x in NAMES if x not in taken], rng.randint(1, 3 if inherited else 4))   # >= 3 names are free
         aliases = rng.sample(ALIASES, len(ALIASES))
